@@ -38,13 +38,6 @@ Definition mem_oracle (w : world) (f : fault) (hist : list string) (u : string) 
 
 (* ---------- file system: segments, `.` and `..` ---------- *)
 
-Fixpoint split_slash_aux (s : string) (cur : string) : list string :=
-  match s with
-  | EmptyString => [cur]
-  | String c r => if Ascii.eqb c "/"%char then cur :: split_slash_aux r "" else split_slash_aux r (cur ++ String c "")
-  end.
-Definition segments (s : string) : list string := split_slash_aux s "".
-
 Fixpoint seg_prefix (a b : list string) : bool :=   (* a is a strict prefix of b *)
   match a, b with
   | [], _ :: _ => true
